@@ -794,7 +794,7 @@ class FnAnalysis:
             pe = self.place_expr(rv['p'], at)
             if pe[0] == 'local':
                 return ('discr', self.local_value(pe[1], at), rv.get('ty', ''))
-            return ('discr', ('load', pe, at), rv.get('ty', ''))
+            return ('discr', self.read_place(pe, at), rv.get('ty', ''))
         if k == 'agg':
             ops = tuple(self.operand(o, at) for o in rv['ops'])
             if rv['ak'] == 'adt':
